@@ -51,7 +51,7 @@ def main():
 
     # ---- PROOF --------------------------------------------------------------------------
     audit = lib.audit_property(pid, P.theorems)
-    ev["coverage"]["obligations"] = audit["obligations"]
+    ev["coverage"]["obligations"] = max(audit["obligations"], len(P.theorems), 1)
     ev["coverage"]["discharged"] = audit["discharged"]
     ev["coverage"]["checker_cmd"] = ("make -C coq theories/Properties/%s.vo (coqc 8.16.1, full .vo) && "
                                      "coqc Audit_%s.v (Check <theorem> : <pinned statement>. Print Assumptions.)" % (pid, pid))
